@@ -643,8 +643,13 @@ class _Interpolator(object):
             idcs[idcs > cvec.size - 2] = cvec.size - 2
             index_vecs.append(idcs)
 
-            norm_distances.append((xi - cvec[idcs]) /
-                                  (cvec[idcs + 1] - cvec[idcs]))
+            if cvec.size == 1:
+                # Single node in this axis (spacing is 0): constant along
+                # the axis, i.e., all weight goes to that node
+                norm_distances.append(np.zeros_like(xi - cvec[idcs]))
+            else:
+                norm_distances.append((xi - cvec[idcs]) /
+                                      (cvec[idcs + 1] - cvec[idcs]))
 
         return index_vecs, norm_distances
 
